@@ -546,6 +546,11 @@ class LinearOperator(EditableModule):
         with torch.enable_grad():
             y = self.mv(xdummy)  # (*BAY, p)
 
+        # a product that is not connected to the vector (e.g. a structurally
+        # zero operator returning a new tensor of zeros) has a zero adjoint
+        if not y.requires_grad:
+            return torch.zeros_like(xdummy)
+
         # calculate (dL/dx)^T = A^T (dL/dy)^T with (dL/dy)^T = xt
         xt2 = xt.contiguous().expand_as(y)  # (*BAY, p)
         res = torch.autograd.grad(y, xdummy, grad_outputs=xt2,
